@@ -1,7 +1,7 @@
 """C02 - stream energy balance: enthalpy is conserved and invertible in temperature."""
 import random
 
-from harness import par, tlc
+from harness import par, replayjob, tlc
 from harness.drivers import energy as de
 
 ASSUME = [
@@ -95,7 +95,7 @@ def run(ctx):
                 s = t['steps'][x['l'] - 1]
                 pre = t['steps'][x['l'] - 2]['post'] if x['l'] > 1 else t['init']
                 ctx.violation(key_of(s, x['clause'], pre), '%s %r: %s pre=%r post=%r obs=%r' % (s['op'], s['a'], x['clause'], pre, s['post'], s['obs']),
-                              dict(kind='note', detail='history-dependent; re-run the check with the same seed', op=s['op'], a=s['a'], clause=x['clause']))
+                              dict(replayjob.job(world_history, ['%d:%s' % (ctx.seed, t['id'].split('_')[0][1:]), int(t['id'].split('_')[0][1:])], t['id']), clause=x['clause']))
                 if t['steps'][x['l']:]:
                     nxt.append(dict(id=t['id'] + 'c', mode='seq', init=s['post'], steps=t['steps'][x['l']:]))
         todo = nxt
@@ -110,6 +110,4 @@ def run(ctx):
 
 
 def replay(ctx, data):
-    print('# C02 violations depend on randomly generated real-stream contents; re-run ./check C02 with the recorded seed')
-    print(data.get('what', ''))
-    return 1
+    return replayjob.run('C02', data, dict(world_history=world_history), 'Energy', de.tla_constants())
